@@ -8,6 +8,7 @@ import AidlVerif.Props.C08
 import AidlVerif.Props.C06
 import AidlVerif.Driver.Walk
 import AidlVerif.Props.C12
+import AidlVerif.Props.C20
 
 /-
   Model driver: one JSON case per input line, one JSON verdict per output line.
@@ -39,13 +40,14 @@ def Verdict.addAssume (v : Verdict) (k : String) (b : Bool) : Verdict := { v wit
 def Verdict.addDetail (v : Verdict) (k : String) (j : Json) : Verdict := { v with detail := v.detail ++ [(k, j)] }
 
 def Verdict.toJson (case : Json) (v : Verdict) : Json :=
-  Json.mkObj [("case", case),
+  Json.mkObj ([("case", case),
     ("corr", Json.mkObj (v.corr.map (fun (k, b) => (k, Json.bool b)))),
     ("spec", Json.mkObj (v.spec.map (fun (k, b) => (k, Json.bool b)))),
     ("assume", Json.mkObj (v.assume.map (fun (k, b) => (k, Json.bool b)))),
     ("nontrivial", Json.bool v.nontrivial),
     ("dist", Json.mkObj (v.dist.map (fun (k, n) => (k, Json.num n)))),
     ("detail", Json.mkObj v.detail)]
+    ++ (match v.detail.lookup "known_finding" with | some k => [("known_finding", k)] | none => []))
 
 def firstDiff {α} [DecidableEq α] (enc : α → Json) (a b : List α) : Json :=
   let rec go (i : Nat) : List α → List α → Json
@@ -353,6 +355,47 @@ def opPerturb (j : Json) : R Verdict := do
   | _, _, _, _ => v := v.addCorr "C13" false
   return v
 
+/-- C20: (expectation vector, message) pairs recorded by the hook -/
+def opExpected (j : Json) : R Verdict := do
+  let impl ← fld j "impl"
+  let pairsJ ← arr (← fld impl "pairs")
+  let mut v : Verdict := {}
+  let mut corr := true
+  let mut bad : List Json := []       -- violations that are not K1
+  let mut k1 : Option Json := none
+  let mut sizes : List (String × Nat) := []
+  let mut n := 0
+  for pj in pairsJ do
+    match pj with
+    | .str _ => corr := false           -- the implementation panicked on one of the texts
+    | _ =>
+      let a ← arr pj
+      let vec ← list str a[0]!
+      let msg ← str a[1]!
+      n := n + 1
+      sizes := bump sizes s!"size={min vec.length 16}"
+      -- the model's wording: the message ends with `expected_token_str(vec)`
+      if !(msg.endsWith (expectedTokenStr vec)) then corr := false
+      if !(Spec.C20.holds vec msg) then
+        if Spec.C20.isK1 vec msg then
+          if k1.isNone then
+            k1 := some (Json.mkObj [("id", "K1"), ("example", Json.mkObj [("expected", Json.arr (vec.map Json.str).toArray), ("message", msg)])])
+        else
+          bad := bad ++ [Json.mkObj [("expected", Json.arr (vec.map Json.str).toArray), ("message", msg),
+            ("missing", Json.arr ((Spec.C20.missing vec msg).map Json.str).toArray),
+            ("foreign", Json.arr ((Spec.C20.foreign vec msg).map Json.str).toArray)]]
+  -- self-test of the name recovery on the Lean-proved witness
+  let selfTest := Spec.C20.namedIn "Expected one of A or C" == ["A", "C"] && Spec.C20.namedIn "x\nExpected A, B or C" == ["A", "B", "C"]
+  v := v.addCorr "C20" (corr && selfTest)
+  v := v.addSpec "C20" (bad.isEmpty && k1.isNone)
+  v := { v with nontrivial := n > 0, dist := sizes }
+  if !bad.isEmpty then
+    v := v.addDetail "violations" (Json.arr bad.toArray)
+  else match k1 with
+    | some k => v := v.addDetail "known_finding" k
+    | none => pure ()
+  return v
+
 def handle (prop : String) (line : String) : Json :=
   match Json.parse line with
   | .error e => Json.mkObj [("error", s!"json: {e}")]
@@ -366,6 +409,7 @@ def handle (prop : String) (line : String) : Json :=
       | "determinism" => opDeterminism j
       | "history" => opHistory j
       | "perturb" => opPerturb j
+      | "expected" => opExpected j
       | _ => throw s!"unknown op {op}" : R Verdict) with
     | .ok v => v.toJson case
     | .error e => Json.mkObj [("case", case), ("error", e)]
